@@ -9,6 +9,8 @@ props = sys.argv[2:] or ["C%02d" % i for i in range(1, 20)]
 scratch = tempfile.mkdtemp(prefix="rpx-try-", dir="/var/tmp")
 evid = tempfile.mkdtemp(prefix="rpx-try-ev-", dir="/var/tmp")
 rc_all = 0
+_fd0 = os.path.join(os.environ.get("RPX_CACHE_DIR") or os.path.join(V, ".cache"), "facts")
+before = set(os.listdir(_fd0)) if os.path.isdir(_fd0) else set()
 try:
     subprocess.run(["rsync", "-a", "--exclude", "target", "--exclude", ".git", "/repo/", scratch + "/"], check=True)
     r0 = subprocess.run(["patch", "-p1", "-s", "-i", patch], cwd=scratch, capture_output=True, text=True)
